@@ -490,7 +490,7 @@ def clause_f(rep, F):
     from . import utf8
     ns = utf8.check(rep, F, fns)
     rep.extra["str_slice_sites"] = ns
-    rep.floor("str slice sites on the parse path", ns, 5)
+    rep.floor("str slice sites on the parse path", ns, 2)
     # every table entry still names an existing function
     for (fk, kind), ent in sorted(table.items()):
         if fk not in F.fns:
